@@ -88,10 +88,15 @@ def isAsciiLetter (c : Char) : Bool := ('a' ≤ c && c ≤ 'z') || ('A' ≤ c &&
 structure LexCfg where
   uscore : Bool
   xmlSpace : Bool
+  /-- XPath's lexical disambiguation of the operator names (§3.7), applied to the token list: `or and
+      div mod` are operators only directly after a token that ends an operand, names everywhere
+      else.  xsel does this in `grammar.disambiguateOperatorNames` after its generated lexer; the
+      specification reaches the same reading in the parser (`Cfg.opNames`), by grammar position. -/
+  opRule : Bool
 deriving Repr, DecidableEq
 
-def lexModel : LexCfg := ⟨false, false⟩
-def lexSpec : LexCfg := ⟨true, true⟩
+def lexModel : LexCfg := ⟨false, true, true⟩
+def lexSpec : LexCfg := ⟨true, true, false⟩
 
 def isNameStart (lc : LexCfg) (c : Char) : Bool := isAsciiLetter c || c == '#' || (lc.uscore && c == '_')
 
@@ -201,7 +206,39 @@ def lexAll (lc : LexCfg) : Nat → Bool → Chars → List LTok → LexRes
         | .err => .err
         | .unsup => .unsup
 
-def lex (lc : LexCfg) (cs : Chars) : LexRes := lexAll lc (cs.length + 1) false cs []
+/-- the token list as the generated lexer tokenises it (keywords are always keyword tokens) -/
+def lexRaw (lc : LexCfg) (cs : Chars) : LexRes := lexAll lc (cs.length + 1) false cs []
+
+def Kw.isOpName : Kw → Bool
+  | .or | .and | .div | .mod => true
+  | _ => false
+
+/-- after this punctuation token an operand must follow (XPath §3.7: `@ :: ( [ ,` and the operators;
+    the `:` inside a QName counts like `::`, because QNames are split into three tokens) -/
+def Punct.wantsOperand : Punct → Bool
+  | .at | .coloncolon | .colon | .lparen | .lbrack | .comma | .slash | .dslash | .pipe | .plus | .minus
+  | .eq | .ne | .lt | .le | .gt | .ge => true
+  | _ => false
+
+/-- `grammar.disambiguateOperatorNames`: `exp` — an operand is expected here (no preceding token, or the
+    preceding token is one of `@ :: ( [ ,` or an operator).  An operator name where an operand is
+    expected is a name; a `*` there is a name test, elsewhere the multiplication operator. -/
+def retagOps : Bool → List LTok → List LTok
+  | _, [] => []
+  | exp, t :: ts =>
+    match t.tok with
+    | .kw k =>
+      if k.isOpName then
+        (if exp then ⟨.ncname k.chars, t.glued⟩ else t) :: retagOps (!exp) ts
+      else t :: retagOps false ts
+    | .p .star => t :: retagOps (!exp) ts
+    | .p x => t :: retagOps x.wantsOperand ts
+    | _ => t :: retagOps false ts
+
+def lex (lc : LexCfg) (cs : Chars) : LexRes :=
+  match lexRaw lc cs with
+  | .ok ts => .ok (if lc.opRule then retagOps true ts else ts)
+  | r => r
 
 /-! ### the terminal of the parser's grammar that a token is -/
 
